@@ -6,10 +6,14 @@
 From Coq Require Import List ZArith NArith Bool Arith Lia.
 Import ListNotations.
 From DD Require Import Base.PyStr Base.Value Base.ValueFacts Path.PathModel Diff.Tree Diff.DiffModel
-  Diff.DiffFacts Diff.DiffFaithful Diff.DiffPaths.
+  Diff.DiffFacts Diff.DiffFaithful Diff.DiffPaths Diff.TextFaithful.
 
 (* an iterable_item_moved entry holds two scalars (only all-scalar lists are aligned by content) *)
 Definition moved_atoms (e : entry) : Prop := exists x y, et1 e = Some (VAtom x) /\ et2 e = Some (VAtom y).
+
+(* a values_changed / type_changes entry has one path for both sides, or holds two scalars (items of
+   all-scalar lists aligned by content are the only levels whose two paths differ) *)
+Definition same_or_atoms (e : entry) : Prop := ep1 e = ep2 e \/ moved_atoms e.
 
 Definition dict_level (excl : path -> bool) (c : cfg) (r1 r2 : value) (e : entry) : Prop :=
   match ekind e with
@@ -21,16 +25,18 @@ Definition dict_level (excl : path -> bool) (c : cfg) (r1 r2 : value) (e : entry
         (ekind e = KDictAdd -> In k (map fst d2) /\ assoc k d1 = None) /\
         (ekind e = KDictRem -> In k (map fst d1) /\ assoc k d2 = None)
   | KIterMoved => moved_atoms e
+  | KValue | KType => same_or_atoms e
   | _ => True
   end.
 
 Definition not_dict_kind (e : entry) : Prop :=
-  ekind e <> KDictAdd /\ ekind e <> KDictRem /\ (ekind e = KIterMoved -> moved_atoms e).
+  ekind e <> KDictAdd /\ ekind e <> KDictRem /\ (ekind e = KIterMoved -> moved_atoms e) /\
+  (ekind e = KValue \/ ekind e = KType -> same_or_atoms e).
 
 Lemma not_dict_kind_level excl c r1 r2 es : Forall not_dict_kind es -> Forall (dict_level excl c r1 r2) es.
 Proof.
-  intros H. eapply Forall_impl; [|exact H]. intros e (A & B & C). unfold dict_level.
-  destruct (ekind e); try exact I; try congruence. apply C. reflexivity.
+  intros H. eapply Forall_impl; [|exact H]. intros e (A & B & C & D). unfold dict_level.
+  destruct (ekind e); try exact I; try congruence; try (apply C; reflexivity); apply D; tauto.
 Qed.
 
 Section Leaves.
@@ -40,29 +46,40 @@ Variable ops : path -> list value -> list value -> list opcode.
 Variable skip : path -> bool.
 Notation ND := (Forall not_dict_kind).
 
-Lemma ND_report k p1 p2 a b d : k <> KDictAdd -> k <> KDictRem -> k <> KIterMoved -> ND (report skip k p1 p2 a b d).
+Lemma ND_report k p1 p2 a b d : k <> KDictAdd -> k <> KDictRem -> k <> KIterMoved ->
+  (k = KValue \/ k = KType -> p1 = p2 \/ exists x y, a = Some (VAtom x) /\ b = Some (VAtom y)) ->
+  ND (report skip k p1 p2 a b d).
 Proof.
-  intros A B C. apply Forall_forall. intros e He. apply (report_in skip) in He as [K _]. repeat split; congruence.
+  intros A B C D. unfold report. destruct (skip p1); constructor; [|constructor].
+  unfold not_dict_kind, same_or_atoms, moved_atoms. cbn [ekind ep1 ep2 et1 et2].
+  split; [exact A|]. split; [exact B|]. split; [intros K; contradiction|].
+  intros K. destruct (D K) as [E|(x & y & -> & ->)]; [left; exact E|right; exists x, y; split; reflexivity].
 Qed.
+Lemma ND_report_other k p1 p2 a b d : k = KIterAdd \/ k = KIterRem -> ND (report skip k p1 p2 a b d).
+Proof. intros [->| ->]; apply ND_report; try discriminate; intros [H|H]; discriminate H. Qed.
+Lemma ND_report_atoms k p1 p2 x y d : k = KValue \/ k = KType -> ND (report skip k p1 p2 (Some (VAtom x)) (Some (VAtom y)) d).
+Proof. intros [->| ->]; apply ND_report; try discriminate; intros _; right; exists x, y; split; reflexivity. Qed.
+Lemma ND_report_same k p a b d : k = KValue \/ k = KType -> ND (report skip k p p a b d).
+Proof. intros [->| ->]; apply ND_report; try discriminate; intros _; left; reflexivity. Qed.
 
 Lemma ND_diff_atom a b p1 p2 : ND (diff_atom udiff skip a b p1 p2).
 Proof.
   unfold diff_atom. destruct (skip p1); [constructor|].
-  destruct (negb _); [apply ND_report; discriminate|].
-  destruct a, b; try (destruct (py_eq _ _); [constructor|apply ND_report; discriminate]).
-  - destruct (diff_str udiff false s s0) as [ch d]. destruct ch; [apply ND_report; discriminate|constructor].
-  - destruct (diff_str udiff true s s0) as [ch d]. destruct ch; [apply ND_report; discriminate|constructor].
+  destruct (negb _); [apply ND_report_atoms; right; reflexivity|].
+  destruct a, b; try (destruct (py_eq _ _); [constructor|apply ND_report_atoms; left; reflexivity]).
+  - destruct (diff_str udiff false s s0) as [ch d]. destruct ch; [apply ND_report_atoms; left; reflexivity|constructor].
+  - destruct (diff_str udiff true s s0) as [ch d]. destruct ch; [apply ND_report_atoms; left; reflexivity|constructor].
 Qed.
 
 Lemma ND_removed_from xs : forall i p1 p2, ND (removed_from skip xs i p1 p2).
 Proof.
   induction xs as [|x xs IH]; intros i p1 p2; cbn; [constructor|].
-  apply Forall_app; split; [apply ND_report; discriminate|apply IH].
+  apply Forall_app; split; [apply ND_report_other; right; reflexivity|apply IH].
 Qed.
 Lemma ND_added_from ys : forall j p1 p2, ND (added_from skip ys j p1 p2).
 Proof.
   induction ys as [|y ys IH]; intros j p1 p2; cbn; [constructor|].
-  apply Forall_app; split; [apply ND_report; discriminate|apply IH].
+  apply Forall_app; split; [apply ND_report_other; left; reflexivity|apply IH].
 Qed.
 Lemma ND_pairs_leaf xs : forall ys i j p1 p2, ND (pairs_leaf udiff skip xs ys i j p1 p2).
 Proof.
@@ -73,7 +90,7 @@ Proof.
     destruct (negb (i =? j) && py_eq_leaf x y) eqn:E.
     { apply andb_true_iff in E as [_ E]. destruct x as [ax| | | | |], y as [ay| | | | |]; try discriminate E.
       unfold report. destruct (skip _); constructor; [|constructor].
-      repeat split; try discriminate. intros _. exists ax, ay. split; reflexivity. }
+      repeat split; try discriminate; [intros _; exists ax, ay; split; reflexivity|intros [H|H]; discriminate H]. }
     unfold diff_leaf. destruct x, y; try constructor. apply ND_diff_atom.
 Qed.
 Lemma ND_by_opcodes os xs ys p1 p2 : ND (by_opcodes udiff skip os xs ys p1 p2).
@@ -91,7 +108,7 @@ Lemma ND_diff_set xs ys p1 p2 : ND (diff_set hatom skip xs ys p1 p2).
 Proof.
   unfold diff_set. apply Forall_app; split; apply Forall_forall; intros e He;
     apply in_flat_map in He as (y & _ & He); destruct (existsb _ _); try (destruct He; fail);
-    unfold report_set in He; destruct (skip p1); try (destruct He; fail); destruct He as [<-|[]]; repeat split; discriminate.
+    unfold report_set in He; destruct (skip p1); try (destruct He; fail); destruct He as [<-|[]]; repeat split; try discriminate; intros [H|H]; discriminate H.
 Qed.
 End Leaves.
 
@@ -178,7 +195,7 @@ Proof.
   apply andb_true_iff in W1 as [N1 W1], W2 as [N2 W2].
   unfold dict_body.
   destruct (dict_shortcut excl c (keys_of c kvs1) (keys_of c kvs2) p) eqn:S.
-  - cbn [fst]. apply not_dict_kind_level, ND_report; discriminate.
+  - cbn [fst]. apply not_dict_kind_level, ND_report_same. left. reflexivity.
   - cbn [fst]. apply Forall_app; split; [|apply Forall_app; split].
     + apply Forall_forall. intros e He. apply in_flat_map in He as (k & Hk & He).
       destruct (mem_atom k (keys_of c kvs1)) eqn:M; [destruct He|].
@@ -200,7 +217,7 @@ Proof.
   induction t1 as [a|xs IH|xs IH|kvs IH|xs|xs] using value_ind'; intros t2 p W1 W2 H1 H2;
     (destruct (skip p) eqn:Hs; [rewrite diff_skip by exact Hs; apply Forall_nil|]);
     (match goal with |- context [diff ?t1 t2 _ _] => destruct (ty_eqb (type_of t1) (type_of t2)) eqn:T end;
-     [|rewrite diff_type by assumption; cbn [fst]; apply not_dict_kind_level, ND_report; discriminate]);
+     [|rewrite diff_type by assumption; cbn [fst]; apply not_dict_kind_level, ND_report_same; right; reflexivity]);
     apply ty_eqb_true in T; destruct t2; try discriminate T; try (destruct a; discriminate T).
   - rewrite diff_atom_eq by exact Hs. cbn in T. rewrite T.
     replace (ty_eqb (atom_ty a0) (atom_ty a0)) with true by (destruct (atom_ty a0); reflexivity).
@@ -225,16 +242,29 @@ Proof.
     destruct H as [<-|[]]. cbn in K. congruence.
 Qed.
 
+Lemma mutual_In_cases es e : In e (mutual es) ->
+  In e es \/ exists e0 a, In e0 es /\ ekind e0 = KIterRem /\ e = mkEntry KValue (ep1 e0) (ep2 e0) (et1 e0) (et2 a) (ediff e0).
+Proof.
+  intros H. unfold mutual in H. apply in_flat_map in H as (e0 & H0 & H).
+  destruct (ekind e0) eqn:K0; try (destruct H as [<-|[]]; left; exact H0).
+  - destruct (last_with_path _ _); [destruct H|]. destruct H as [<-|[]]. left. exact H0.
+  - destruct (last_with_path (ep1 e0) (filter (is_kind KIterAdd) es)) as [a|]; [|destruct H as [<-|[]]; left; exact H0].
+    destruct (last_with_path (ep1 e0) (filter (is_kind KIterRem) es)); [|destruct H as [<-|[]]; left; exact H0].
+    destruct H as [<-|[]]. right. exists e0, a. repeat split; assumption.
+Qed.
+
 Theorem run_diff_dict_level hatom udiff ops skip excl c t1 t2 :
   wf t1 = true -> wf t2 = true ->
   forall e, In e (fst (run_diff hatom udiff ops skip excl c t1 t2)) -> dict_level excl c t1 t2 e.
 Proof.
   intros W1 W2 e He.
   pose proof (diff_dict_level hatom udiff ops skip excl c t1 t2 t1 t2 [] W1 W2 eq_refl eq_refl) as HF.
+  pose proof (diff_same_paths hatom udiff ops skip excl c t1 t2 []) as HS.
   unfold run_diff in He. destruct (diff hatom udiff ops skip excl c t1 t2 [] []) as [es rec] eqn:D.
   cbn [fst] in *.
-  destruct (ekind e) eqn:K; try (unfold dict_level; rewrite K; exact I).
-  - eapply Forall_forall in HF; [exact HF|]. apply mutual_dict_In; [exact He|congruence].
-  - eapply Forall_forall in HF; [exact HF|]. apply mutual_dict_In; [exact He|congruence].
-  - eapply Forall_forall in HF; [exact HF|]. apply mutual_dict_In; [exact He|congruence].
+  destruct (mutual_In_cases es e He) as [Hin|(e0 & a & H0 & K0 & ->)].
+  - eapply Forall_forall in HF; [exact HF|exact Hin].
+  - unfold dict_level. cbn [ekind]. left. cbn [ep1 ep2].
+    eapply Forall_forall in HS; [|exact H0]. destruct HS as [E|S]; [exact E|].
+    unfold shifted in S. rewrite K0 in S. destruct S as [S|[S|S]]; discriminate S.
 Qed.
